@@ -226,6 +226,11 @@ class GeoNetworkFamily(NetworkFamily):
             NetworkFamily.mutate(self, obj, m, v)
 
 
+# tokens 3 / 4 of the resistive family: the resistances of tokens 1 / 2 in gigaohm (times 2^30)
+RES[3] = RES[1] * 2.0**30
+RES[4] = RES[2] * 2.0**30
+
+
 class ResNetworkFamily:
     name = "resnetwork"
 
